@@ -65,7 +65,8 @@ func c01f0(env *core.Env, kind string) {
 	st := buildStack(env, o)
 	m := reg.NewModel(immutable)
 	direct := kind == "mem"
-	m.StrictCodes = direct
+	// (which code a refusal carries is C02's subject; here only that it is refused)
+	m.StrictCodes = false
 	w := reg.DefaultWeights()
 	// integrity is about reads and pushes: weight them up
 	w[reg.GetBlob], w[reg.GetBlobRange], w[reg.GetManifest], w[reg.GetTag], w[reg.PushBlob] = 10, 12, 8, 8, 16
